@@ -526,6 +526,8 @@ class Dump1090:
         self.out = bytearray()
         self.err = bytearray()
         self.exit_code = None
+        self.last_send_switches = None
+        self.last_send_extra = 0
 
     def start(self):
         self.tmp = tempfile.mkdtemp(prefix='e4d_', dir=SCRATCH)
@@ -595,23 +597,48 @@ class Dump1090:
                 return 'timeout'
             self.pump(min(left, 0.05))
 
+    def vol_switches(self):
+        """voluntary context switches of the (single-threaded) subject: +1 every time it blocks in recv()"""
+        try:
+            with open('/proc/%d/status' % self.proc.pid) as f:
+                for ln in f:
+                    if ln.startswith('voluntary_ctxt_switches'):
+                        return int(ln.split()[1])
+        except (OSError, ValueError):
+            pass
+        return None
+
     def gap(self, seconds):
+        """read-timeout gap: at least `seconds` (5x the 50 ms read timeout) AND, causally, the subject has blocked in
+        recv() at least 3 + stale more times than before the gap (1: the wait that times out on the partial line,
+        2: the next loop iteration - which starts by clearing the buffer - blocks again, +1 for a block that
+        predates the landing of the data).  Returns 'ok' | 'exited' | 'timeout'."""
+        v0 = self.last_send_switches
+        extra = self.last_send_extra
         end = time.monotonic() + seconds
+        hard = time.monotonic() + T_SYNC
         while True:
-            left = end - time.monotonic()
-            if left <= 0:
-                break
-            self.pump(left)
-            if getattr(self, '_eof_out', False):
-                time.sleep(max(0.0, min(left, end - time.monotonic())))
-                break
+            now = time.monotonic()
+            if self.exited():
+                return 'exited'
+            v = self.vol_switches()
+            causal = v0 is None or v is None or v >= v0 + 3 + extra
+            if now >= end and causal:
+                return 'ok'
+            if now >= hard:
+                return 'timeout'
+            self.pump(min(0.02, max(0.0, end - now)) if now < end else 0.02)
 
     def send(self, data):
+        t0 = time.monotonic()
+        self.last_send_switches = self.vol_switches()
         try:
             self.conn.sendall(data)
-            return True
+            ok = True
         except OSError:
-            return False
+            ok = False
+        self.last_send_extra = int((time.monotonic() - t0) / 0.050)
+        return ok
 
     def cleanup(self):
         try:
@@ -655,7 +682,9 @@ def run_1090(script):
             if op == 'send':
                 d.send(bytes.fromhex(st['hex']))
             elif op == 'gap':
-                d.gap(GAP_1090_S)
+                g = d.gap(GAP_1090_S)
+                if g == 'timeout':
+                    raise Machinery('1090 did not block in recv() during a gap (no read timeout observable)')
             elif op == 'close':
                 try:
                     d.conn.shutdown(socket.SHUT_RDWR)
